@@ -192,6 +192,9 @@ type attr struct {
 	// afterAction reports that an action has been seen in the value of the attribute: what
 	// follows, static text or another action, makes the value a partial substitution.
 	afterAction bool
+	// inherited reports, during the analysis of a called template, that the attribute is
+	// still the one the call site is in, not one that the template has opened itself.
+	inherited bool
 }
 
 // eq reports whether a and b have the same name. All other fields are ignored.
